@@ -267,6 +267,11 @@ def _corpus_families(big):
                 des = [0, 1, 2, 3] if any(2 in cr for cr in crossings) else [0, 1, 3]
                 out.append({"factors": [c, t, m3, tr], "block": {"k": "multicross", "design": des, "crossings": crossings,
                             "cs": [], "rcc": True, "mode": mode, "align": align}})
+    # mode / alignment given by their documented string spellings, crossings of different size
+    sa, sb4 = _sf(0, ["a1", "a2"]), _sf(1, ["b1", "b2", "b3", "b4"])
+    for mode in ("repeat", "weight"):
+        out.append({"factors": [sa, sb4], "block": {"k": "multicross", "design": [0, 1], "crossings": [[0], [1]], "cs": [],
+                    "rcc": True, "mode": mode, "align": "equal preamble", "as_strings": True}})
     # a weighted factor that is in one crossing but not in the other (it must not be split into copies)
     wcol = _sf(0, ["red", "blue"], [2, 1])
     sz3 = _sf(1, ["a", "b", "c"])
@@ -518,6 +523,12 @@ def _corpus_families(big):
         out.append({"factors": [na, nb], "block": {"k": "nest", "cs": ([{"k": "MinimumTrials", "n": mn}] if mn else []), "align": None,
                     "outer": {"k": "cross", "design": [0], "crossing": [0], "rcc": True, "cs": [{"k": "MinimumTrials", "n": mo}]},
                     "inner": {"k": "cross", "design": [10], "crossing": [10], "rcc": True, "cs": [{"k": "MinimumTrials", "n": mi}]}}})
+    # small enough to exhaust with every strategy: a partial outer round at the end (sustained crossing)
+    qa, qb = _sf(0, ["a1", "a2"]), _sf(10, ["b1", "b2"])
+    for mt in (6, 10):
+        out.append({"factors": [qa, qb], "block": {"k": "nest", "cs": [{"k": "MinimumTrials", "n": mt}], "align": None,
+                    "outer": {"k": "cross", "design": [0], "crossing": [0], "rcc": True, "cs": []},
+                    "inner": {"k": "cross", "design": [10], "crossing": [10], "rcc": True, "cs": []}}})
     # MinimumTrials given to the Nest itself, not a multiple of the inner length (rounded up to whole inner runs)
     oa, isx = _sf(0, ["A1", "A2"]), _sf(10, ["s1", "s2", "s3"])
     for mt in (7, 10, 6, 5):
